@@ -79,7 +79,8 @@ def explore(seed, n, opts):
     per = opts.get("per", 12)
     for _ in range(n):
         k = rng.randint(2, 4)
-        sc = Scenario(rng, k, None, 0)
+        sseed = rng.randrange(2**31)
+        sc = Scenario(random.Random(sseed), k, None, 0)
         tags = list(range(k))
         probes = sc.probes()
         ref = reference(sc, tags, probes)
@@ -121,7 +122,7 @@ def explore(seed, n, opts):
             bump("mode:" + mode)
             v, _ = one_run(sc, tags, mode, targs, routes, segments, probes, ref)
             if v is not None:
-                wit = {"kind": "conc", "seed_scenario": None, "mode": mode, "k": k, "targs": targs, "routes": routes, "segments": segments, **v}
+                wit = {"kind": "conc", "sseed": sseed, "mode": mode, "k": k, "targs": targs, "routes": routes, "segments": segments, **v}
                 where = (v.get("trace") or [[None, None, None]])[0][2]
                 cls = classify(mode, where)
                 if cls:
@@ -130,6 +131,16 @@ def explore(seed, n, opts):
                     o["viol"].append(wit)
                 break
     return out
+
+
+def replay_conc(w):
+    """re-run a recorded schedule; True when it still fails"""
+    sc = Scenario(random.Random(w["sseed"]), w["k"], None, 0)
+    tags = list(range(w["k"]))
+    probes = sc.probes()
+    ref = reference(sc, tags, probes)
+    v, _ = one_run(sc, tags, w["mode"], w["targs"], w["routes"], [tuple(x) for x in w["segments"]], probes, ref)
+    return v is not None
 
 
 def classify(mode, where):
